@@ -13,13 +13,23 @@ COMMON = ["h_cred.c", "src/libcommon/m_msg.c", "src/libcommon/fd.c", "src/libcom
           "src/common/crypto.c"]
 
 
+def _build(ctx, name, srcs, libs, defines=()):
+    exe = cbuild.build(ctx, name, srcs, libs=libs, defines=list(defines))
+    if exe is None:
+        # most often a refactoring removed or renamed a static function that the harness's kernel-call table names: the failed
+        # build is already a failed obligation; build again without that table so that the request streams (whole requests
+        # through the real _job_exec) and their property oracles still run and can give the failing input
+        exe = cbuild.build(ctx, name + "_nokern", srcs, libs=libs, defines=list(defines) + ["HC_NO_KERN"])
+    return exe
+
+
 def build_real(ctx):
-    return cbuild.build(ctx, "h_cred_real", COMMON + ["src/common/mac.c", "src/common/md.c", "src/munged/cipher.c"],
-                        libs=["-lcrypto", "-lz", "-lbz2", "-ldl"])
+    return _build(ctx, "h_cred_real", COMMON + ["src/common/mac.c", "src/common/md.c", "src/munged/cipher.c"],
+                  ["-lcrypto", "-lz", "-lbz2", "-ldl"])
 
 
 def build_toy(ctx):
-    return cbuild.build(ctx, "h_cred_toy", COMMON + ["toy_prims.c"], libs=["-lcrypto", "-ldl"], defines=["HC_TOY"])
+    return _build(ctx, "h_cred_toy", COMMON + ["toy_prims.c"], ["-lcrypto", "-ldl"], defines=["HC_TOY"])
 
 
 def hx(b):
